@@ -213,3 +213,105 @@ func runC10(cases []string, out *bufio.Writer, _ []string) {
 	}
 	log.TimeNow, log.StringFromContext, log.FieldsFromContext = nil, nil, nil
 }
+
+func init() { families["c10c"] = runC10Concurrent }
+
+type c10Who struct{}
+
+// A second goroutine logs while another one is still inside one of its hooks. Case: "<kind none|sync|async>"
+// Observation: "<calls of B> <time-hook calls for B> <string-hook calls for B> <fields-hook calls for B> <records of B carrying B's context string and field> <A's record seen 0|1>"
+func runC10Concurrent(cases []string, out *bufio.Writer, _ []string) {
+	tag := log.RegisterTag("_c10c_probe")
+	for _, kind := range cases {
+		kind = strings.TrimSpace(kind)
+		release := make(chan struct{})
+		entered := make(chan struct{}, 1)
+		var nT, nS, nF atomic.Int64
+		who := func(ctx context.Context) string {
+			if ctx == nil {
+				return ""
+			}
+			w, _ := ctx.Value(c10Who{}).(string)
+			return w
+		}
+		log.TimeNow = func(ctx context.Context) time.Time {
+			if who(ctx) == "B" {
+				nT.Add(1)
+			}
+			return time.Date(2001, 2, 3, 4, 5, 6, 7000000, time.UTC)
+		}
+		log.StringFromContext = func(ctx context.Context) string {
+			switch who(ctx) {
+			case "A": // parked inside its hook until the other goroutine is done
+				entered <- struct{}{}
+				<-release
+				return "cs-A"
+			case "B":
+				nS.Add(1)
+				return "cs-B"
+			}
+			return ""
+		}
+		log.FieldsFromContext = func(ctx context.Context) []log.Field {
+			if who(ctx) == "B" {
+				nF.Add(1)
+			}
+			return []log.Field{log.String("who", "ctx-of-"+who(ctx))}
+		}
+		recReset()
+		stdout := &syncBuffer{}
+		log.Stdout = stdout
+		if kind != "none" {
+			cfg := map[string]string{"appender.a.type": "Rec", "logger.lg.tags": "_c10c_*", "logger.lg.level": "trace", "logger.lg.appenderRef.ref": "a",
+				"logger.lg.type": map[string]string{"sync": "Logger", "async": "AsyncLogger"}[kind]}
+			if err := log.Refresh(cfg); err != nil {
+				fmt.Fprintln(out, "err")
+				continue
+			}
+		}
+		ctxA := context.WithValue(context.Background(), c10Who{}, "A")
+		ctxB := context.WithValue(context.Background(), c10Who{}, "B")
+		aDone := make(chan struct{})
+		go func() { log.Info(ctxA, tag, log.Msg("<A>")); close(aDone) }()
+		waitSignal(entered, 3*time.Second)
+		calls := 0
+		bDone := make(chan struct{})
+		go func() {
+			defer close(bDone)
+			log.Info(ctxB, tag, log.Msg("<B0>"))
+			log.Warnf(ctxB, tag, "%s", "<B1>")
+			log.Error(ctxB, tag, log.Msg("<B2>"))
+			log.Debug(ctxB, tag, func() []log.Field { return []log.Field{log.Msg("<B3>")} })
+			log.Record(ctxB, log.InfoLevel, tag, 1, log.Msg("<B4>"))
+			log.Fatalf(ctxB, tag, "%s", "<B5>")
+		}()
+		if waitSignal(bDone, 5*time.Second) {
+			calls = 6
+		}
+		close(release)
+		waitSignal(aDone, 5*time.Second)
+		if kind != "none" {
+			log.Destroy()
+		}
+		log.Stdout = os.Stdout
+		var lines [][]byte
+		if kind == "none" {
+			lines = bytes.Split(stdout.Bytes(), []byte("\n"))
+		} else {
+			for _, it := range recSnapshot()["a"] {
+				lines = append(lines, it.Data)
+			}
+		}
+		withCtx, seenA := 0, 0
+		for _, l := range lines {
+			if bytes.Contains(l, []byte("<B")) && bytes.Contains(l, []byte("cs-B")) && bytes.Contains(l, []byte("ctx-of-B")) && bytes.Contains(l, []byte("2001-02-03T04:05:06.007")) {
+				withCtx++
+			}
+			if bytes.Contains(l, []byte("<A>")) && bytes.Contains(l, []byte("cs-A")) {
+				seenA = 1
+			}
+		}
+		fmt.Fprintf(out, "%d %d %d %d %d %d\n", calls, nT.Load(), nS.Load(), nF.Load(), withCtx, seenA)
+	}
+	log.TimeNow, log.StringFromContext, log.FieldsFromContext = nil, nil, nil
+}
